@@ -159,6 +159,22 @@ def main():
     finally:
         ROOT = orig_root
         shutil.rmtree(snap, ignore_errors=True)
+    # rewrites on which an alarm is a documented limit of a rule (selftest/refactors_limits.json)
+    limits = {}
+    try:
+        with open(os.path.join(HERE, "refactors_limits.json")) as f:
+            limits = {k: v for k, v in json.load(f).items() if not k.startswith("_")}
+    except OSError:
+        pass
+    for r in results:
+        if r["result"] == "FALSE-ALARM" and r["id"] in limits:
+            allowed = set(limits[r["id"]]["rules"])
+            fired_rules = set()
+            for k in r.get("fired", []):
+                k2 = k.split(":", 1)[1] if re.match(r"^C\d\d:", k) else k
+                fired_rules.add(k2.split("/", 1)[0])
+            if fired_rules <= allowed:
+                r["result"] = "LIMIT"
     bad = 0
     for r in results:
         line = "%-9s %-28s %-4s %-11s %s" % (r["kind"], r["id"], r["prop"], r["result"], " ".join(r.get("fired", []))[:160])
@@ -177,6 +193,7 @@ def main():
         "silent": sum(r["result"] == "silent" for r in results),
         "missed": sum(r["result"] == "MISSED" for r in results),
         "false_alarms": sum(r["result"] == "FALSE-ALARM" for r in results),
+        "documented_limits": sum(r["result"] == "LIMIT" for r in results),
         "stale": sum(r["result"] == "stale" for r in results),
         "seeded_changes_not_caught_by_any_listed_property": missed_seeded,
     }
